@@ -583,11 +583,23 @@ func (w *World) heapByName(name string) *Term {
 		return nil
 	}
 	for _, p := range pkgs {
-		pk := w.Pkgs[p]
-		if pk == nil {
+		var tpkg *types.Package
+		if pk := w.Pkgs[p]; pk != nil {
+			tpkg = pk.Types
+		} else {
+			// a dependency, named by its package name (rtree.RTree.count)
+			for _, mp := range w.Pkgs {
+				for _, imp := range mp.Imports {
+					if imp.Types != nil && imp.Types.Name() == p {
+						tpkg = imp.Types
+					}
+				}
+			}
+		}
+		if tpkg == nil {
 			continue
 		}
-		obj := pk.Types.Scope().Lookup(tn)
+		obj := tpkg.Scope().Lookup(tn)
 		if obj == nil {
 			continue
 		}
